@@ -15,7 +15,7 @@ PROPERTY = "C18"
 RULE = ("(pairs) all ordered pairs inside per-class value pools that are exhaustive in unit / "
         "alignment / None-ness (25 sizes, 36 points, 36 stretches, 256 paddings, 24 alignments, "
         "81 layouts) plus all cross-class pairs of a mixed pool; (rpairs) Hypothesis layouts "
-        "paired with a copy mutated in at most one component, or with one magnitude moved by one ulp / 1e-12 relative / 1e-10 absolute (still unequal); (immut) as_percentage_of / "
+        "paired with a copy mutated in at most one component, or with one magnitude moved by one ulp / 1e-12 relative / 1e-10 absolute (still unequal); (immut) the receiver is hashed first and every result must equal and hash like the same value built afresh; (padding) Point / Stretch parsing is repeated while a different value with the same hash is alive; as_percentage_of / "
         "fit_to_screen on generated values, receiver dumped before/after; (parse) ALL strings of "
         "length <=4 (thorough <=5) over the 15 symbols '015.+-eEpxmct% ' judged by a hand-written "
         "recogniser, plus Hypothesis strings to length 12 and perturbed valid sizes; (print) "
@@ -287,6 +287,10 @@ def check_immut(case, rec):
     with must("constructing geometry value"):
         v = build(spec)
     before = snapshot(v)
+    try:
+        hash(v)      # the receiver has been hashed before (it sat in a set, say)
+    except Exception as e:  # noqa
+        raise Violation(f"hash({v!r}) raised {type(e).__name__}: {e}")
     ops = []
     if isinstance(v, Size):
         ops.append(("as_percentage_of(w)", lambda: v.as_percentage_of(video_width=case["w"])))
@@ -309,6 +313,12 @@ def check_immut(case, rec):
         require(after == before, lambda: f"{name} modified its receiver: {before} -> {after}")
         if res is not None:
             rs = snapshot(res)
+            # the result is an ordinary value: equal to, and hashing like, the same value built
+            # from scratch
+            twin = build(rs)
+            require(twin == res and res == twin, lambda: f"result of {name} on {v!r} differs from the same value built afresh: {res!r} vs {twin!r}")
+            require(hash(twin) == hash(res) and twin in {res},
+                    lambda: f"result of {name} on {v!r} equals {twin!r} but hashes differently")
             if rs != before:
                 changed = True
                 require(res is not v, f"{name} returned the receiver although the value changed")
@@ -482,7 +492,9 @@ def padding_strategy(tier):
     tok = st.builds(lambda a, u: (f"{a}{u}", a, u),
                     st.one_of(st.integers(0, 200), st.integers(0, 20000).map(lambda n: n / 100)),
                     st.sampled_from(UNITS))
-    return st.lists(tok, min_size=1, max_size=4).map(lambda xs: {"toks": [list(x) for x in xs]})
+    pct = st.builds(lambda a: (f"{a}%", a, "%"), st.integers(0, 100))
+    return st.one_of(st.lists(tok, min_size=1, max_size=4), st.lists(tok, min_size=1, max_size=4),
+                     st.lists(pct, min_size=2, max_size=4)).map(lambda xs: {"toks": [list(x) for x in xs]})
 
 
 def check_padding(case, rec):
@@ -525,6 +537,26 @@ def check_padding(case, rec):
         require((stt.horizontal.value, stt.horizontal.unit.value, stt.vertical.value,
                  stt.vertical.unit.value) == vals[0] + vals[1],
                 lambda: f"Stretch.from_xml_attribute({two!r}) = {stt!r}")
+        # ... also while another, different value with the same hash is alive (the library's
+        # own hash probed as a black box: c12.hash_offsets)
+        if vals[0][1] == vals[1][1] == "%" and float(vals[0][0]).is_integer() and float(vals[1][0]).is_integer():
+            from .c12 import hash_offsets
+            for cls, kind, names in ((Point, "point", ("x", "y")), (Stretch, "stretch", ("horizontal", "vertical"))):
+                for dx, dy in hash_offsets(kind)[:2]:
+                    x2, y2 = vals[0][0] + dx, vals[1][0] + dy
+                    if x2 < 0 or y2 < 0:
+                        continue
+                    first = cls.from_xml_attribute(two)          # stays alive
+                    other = f"{int(x2)}% {int(y2)}%"
+                    with must("from_xml_attribute of a hash twin"):
+                        second = cls.from_xml_attribute(other)
+                    g2 = (getattr(second, names[0]).value, getattr(second, names[1]).value)
+                    require(g2 == (x2, y2), lambda: f"{cls.__name__}.from_xml_attribute({other!r}) = {second!r} "
+                                                    f"while {first!r} (same hash) is alive")
+                    g1 = (getattr(first, names[0]).value, getattr(first, names[1]).value)
+                    require(g1 == (vals[0][0], vals[1][0]), lambda: f"{first!r} changed after parsing {other!r}")
+                    require(first != second, lambda: f"{first!r} == {second!r}")
+                    rec.label("hash-twin-parsed")
     rec.nontrivial(len(set(vals)) > 1)
     rec.label(f"arity{n}")
 
